@@ -1847,16 +1847,22 @@ Proof.
 Qed.
 
 (* ---------------------------------------------------------------------------------- *)
-(* the theorems restated with the known-finding class F17 as the excluded case           *)
+(* the quadrant "no extension, cached metadata" and the known-finding class F17           *)
 (* ---------------------------------------------------------------------------------- *)
 
-Lemma not_known_class ext uc : ~ KnownClass ext uc -> ext = true \/ uc = false.
-Proof. unfold KnownClass. destruct ext, uc; intros H; try (left; reflexivity); try (right; reflexivity). exfalso. apply H. split; reflexivity. Qed.
+Lemma not_quadrant ext uc : ~ Quadrant ext uc -> ext = true \/ uc = false.
+Proof.
+  unfold Quadrant. destruct ext, uc; intros H; try (left; reflexivity); try (right; reflexivity).
+  exfalso. apply H. split; reflexivity.
+Qed.
 
-Lemma known_classb_spec ext uc : known_classb ext uc = true <-> KnownClass ext uc.
-Proof. unfold known_classb, KnownClass. destruct ext, uc; simpl; split; intros H; try discriminate H; try (destruct H; discriminate); auto. Qed.
+Lemma quadrantb_spec ext uc : quadrantb ext uc = true <-> Quadrant ext uc.
+Proof.
+  unfold quadrantb, Quadrant. destruct ext, uc; simpl; split; intros H;
+    try discriminate H; try (destruct H; discriminate); auto.
+Qed.
 
-Lemma faithful_outside_class (D : schema) (ST : nat -> stmt) (ns : nat) (init : nat -> meta) :
+Lemma faithful_outside_quadrant (D : schema) (ST : nat -> stmt) (ns : nat) (init : nat -> meta) :
   (forall s v v', mid_of D s v = mid_of D s v' -> cols_of D s v = cols_of D s v') ->
   (forall s v, mid_of D s v <> []) ->
   (forall s s', s_id (ST s) = s_id (ST s') -> s = s') ->
@@ -1866,15 +1872,15 @@ Lemma faithful_outside_class (D : schema) (ST : nat -> stmt) (ns : nat) (init : 
   srun D ST ns (sinit init nodes) ls = Some st ->
   let k := g_calls (s_g st) c in
   k_x k = Some a -> k_st k = CS_done (O_rows u pg nr cl) ->
-  ~ KnownClass (k_ext k) (xa_use_cached a) ->
+  ~ Quadrant (k_ext k) (xa_use_cached a) ->
   exists enc p, s_enc st c = Some (enc, p) /\ m_cols u = enc /\
                 pg = p_paging p /\ nr = p_nrows p /\ cl = p_cells p.
 Proof.
   intros H1 H2 H3 H4 H5 nodes ls st c a u pg nr cl HR k Hx Hd HK.
-  eapply faithful; try eassumption. now apply not_known_class.
+  eapply faithful; try eassumption. now apply not_quadrant.
 Qed.
 
-Lemma recovers_outside_class (D : schema) (ST : nat -> stmt) (ns : nat) (init : nat -> meta) :
+Lemma recovers_outside_quadrant (D : schema) (ST : nat -> stmt) (ns : nat) (init : nat -> meta) :
   (forall s v v', mid_of D s v = mid_of D s v' -> cols_of D s v = cols_of D s v') ->
   (forall s v, mid_of D s v <> []) ->
   (forall s s', s_id (ST s) = s_id (ST s') -> s = s') ->
@@ -1893,10 +1899,180 @@ Lemma recovers_outside_class (D : schema) (ST : nat -> stmt) (ns : nat) (init : 
   exists st' u,
     srun D ST ns st [SL_serve c p0; SL_recv c; SL_serve c p1; SL_recv c; SL_tick c; SL_serve c p; SL_recv c] = Some st' /\
     k_st (g_calls (s_g st') c) = CS_done (O_rows u (p_paging p) (p_nrows p) (p_cells p)) /\
-    (~ KnownClass (k_ext k) (xa_use_cached a) -> m_cols u = cols_of D s (n_ver nd s)).
+    (~ Quadrant (k_ext k) (xa_use_cached a) -> m_cols u = cols_of D s (n_ver nd s)).
 Proof.
   intros H1 H2 H3 H4 H5 nodes ls st c a m s p0 p1 p HR nd k Hid Htx Hsid Hx Hs Hst Hout Hin Hext Hprep Hsalt Hcols.
   destruct (recovers_faithful D ST ns init H1 H2 H3 H4 H5 nodes ls st c a m s p0 p1 p HR Hid Htx Hsid Hx Hs Hst Hout Hin Hext Hprep Hsalt Hcols)
     as [st' [u [A [B C]]]].
-  exists st', u. split; [exact A|]. split; [exact B|]. intros HK. apply C. now apply not_known_class.
+  exists st', u. split; [exact A|]. split; [exact B|]. intros HK. apply C. now apply not_quadrant.
+Qed.
+
+(* the computed class is the class *)
+Lemma any_call_true n f : any_call n f = true -> exists c', f c' = true.
+Proof.
+  induction n as [|n IH]; simpl; [discriminate|]. intros H. apply orb_true_iff in H.
+  destruct H as [H|H]; [eauto|auto].
+Qed.
+
+Lemma list_eqb_col_eq a b : list_eqb col_eqb a b = true -> a = b.
+Proof.
+  revert b; induction a as [|x a IH]; intros [|y b]; simpl; try discriminate; [reflexivity|].
+  intros H. apply andb_true_iff in H. destruct H as [H1 H2]. f_equal; [|now apply IH].
+  unfold col_eqb in H1. apply andb_true_iff in H1. destruct H1 as [E1 E2].
+  apply N.eqb_eq in E1. destruct x as [n1 t1], y as [n2 t2]; simpl in *. subst.
+  f_equal. destruct t1, t2; simpl in E2; try discriminate; reflexivity.
+Qed.
+
+Lemma known_classb_sound ST st n c cols : known_classb ST st n c cols = true -> KnownClass ST st c cols.
+Proof.
+  unfold known_classb, KnownClass. destruct (k_x (g_calls st c)) as [a|]; [|discriminate].
+  intros H. apply andb_true_iff in H. destruct H as [Q A]. apply quadrantb_spec in Q. destruct Q as [Q1 Q2].
+  exists a. split; [reflexivity|]. split; [assumption|]. split; [assumption|].
+  apply any_call_true in A. destruct A as [c' A]. apply existsb_exists in A. destruct A as [r [HI HR]].
+  destruct r; simpl in HR; try discriminate.
+  apply andb_true_iff in HR. destruct HR as [HR H3]. apply andb_true_iff in HR. destruct HR as [H1 H2].
+  exists c', id, m. split; [assumption|]. split; [now apply bytes_eqb_eq|]. split.
+  - destruct (m_cols m); [discriminate|discriminate].
+  - intros E. rewrite E in H3. clear -H3. induction cols as [|x r IH]; simpl in H3; [discriminate|].
+    assert (col_eqb x x = true).
+    { unfold col_eqb. rewrite N.eqb_refl. destruct (c_type x); reflexivity. }
+    rewrite H in H3. simpl in H3. now apply IH.
+Qed.
+
+(* ---- without the extension nothing is ever stored: the cell stays what preparation announced ---- *)
+Definition noext_label (l : glabel) : Prop :=
+  match l with
+  | GL_exec _ ext _ | GL_batch _ ext _ => ext = false
+  | GL_resp _ (RPrepared _ m) => m_id m = None      (* no extension negotiated: PREPARED has no metadata id *)
+  | _ => True
+  end.
+
+Record noext_inv (init : nat -> meta) (st : gstate) : Prop := {
+  ne_cells : forall s, g_cells st s = init s;
+  ne_ann : forall s, g_ann st s = [];
+  ne_ext : forall c, k_ext (g_calls st c) = false;
+  ne_snap : forall c m, snap_of (k_st (g_calls st c)) = Some m ->
+            exists a, (k_st (g_calls st c) = CS_exec1 a m \/ k_st (g_calls st c) = CS_exec2 a m) /\ m = init (xa_stmt a)
+}.
+
+Lemma recv_store_noext ST cells cs r s u cs' oq :
+  call_recv ST false cells cs r = Some (Some (s, u), cs', oq) ->
+  m_id u <> None /\ ((exists id, r = RPrepared id u) \/ snap_of cs = Some u).
+Proof.
+  intros H. destruct (recv_store _ _ _ _ _ _ _ _ _ H) as [Hid [[Hc|[a [_ Hcs]]] _]].
+  - split; [assumption|]. destruct Hc as [[id E]|[b [i [cols [E [EM Eu]]]]]]; [left; eauto|].
+    exfalso. subst r. destruct cs; simpl in H; try discriminate.
+    + unfold used_meta in H. rewrite EM in H. simpl in H. discriminate.
+    + unfold used_meta in H. rewrite EM in H. simpl in H. discriminate.
+  - split; [assumption|]. right. destruct Hcs as [-> | ->]; reflexivity.
+Qed.
+
+Lemma gstep_noext ST init st l st' :
+  (forall s, m_id (init s) = None) -> noext_label l -> noext_inv init st ->
+  gstep ST st l = Some st' -> noext_inv init st'.
+Proof.
+  intros Hinit HL [HC HA HE HS] Hs.
+  destruct l as [c0 ext a|c0 ext b|c0 r|c0]; simpl in Hs.
+  - destruct (k_st (g_calls st c0)); try discriminate. inversion Hs; subst; clear Hs. simpl in HL. subst ext.
+    constructor; simpl; auto.
+    + intros c. unfold upd. destruct (Nat.eqb c c0); [reflexivity|apply HE].
+    + intros c m. unfold upd. destruct (Nat.eqb c c0); [|apply HS]. simpl. intros E. inversion E; subst.
+      exists a. split; [left; reflexivity|apply HC].
+  - destruct (k_st (g_calls st c0)); try discriminate. inversion Hs; subst; clear Hs. simpl in HL. subst ext.
+    constructor; simpl; auto.
+    + intros c. unfold upd. destruct (Nat.eqb c c0); [reflexivity|apply HE].
+    + intros c m. unfold upd. destruct (Nat.eqb c c0); [|apply HS]. simpl. discriminate.
+  - rewrite (HE c0) in Hs.
+    destruct (call_recv ST false (g_cells st) (k_st (g_calls st c0)) r) as [[[sto cs] oq]|] eqn:E; [|discriminate].
+    pose proof (recv_no_snap _ _ _ _ _ _ _ _ E) as NS.
+    assert (sto = None) as ->.
+    { destruct sto as [[s u]|]; [|reflexivity]. exfalso.
+      destruct (recv_store_noext _ _ _ _ _ _ _ _ E) as [Hid [[id ->]|Hsn]].
+      - simpl in HL. contradiction.
+      - destruct (HS c0 u Hsn) as [a [_ ->]]. apply Hid. apply Hinit. }
+    simpl in Hs. inversion Hs; subst; clear Hs.
+    constructor; simpl; auto.
+    + intros c. unfold upd. destruct (Nat.eqb c c0); [reflexivity|apply HE].
+    + intros c m. unfold upd. destruct (Nat.eqb c c0); [|apply HS]. simpl. rewrite NS. discriminate.
+  - destruct (call_tick ST (k_ext (g_calls st c0)) (g_cells st) (k_st (g_calls st c0))) as [[cs q]|] eqn:E; [|discriminate].
+    inversion Hs; subst; clear Hs.
+    constructor; simpl; auto.
+    + intros c. unfold upd. destruct (Nat.eqb c c0); [apply HE|apply HE].
+    + intros c m. unfold upd. destruct (Nat.eqb c c0); [|apply HS]. simpl.
+      destruct (k_st (g_calls st c0)); simpl in E; try discriminate. inversion E; subst. simpl.
+      intros EE; inversion EE; subst. exists a. split; [right; reflexivity|apply HC].
+Qed.
+
+Lemma grun_noext ST init : (forall s, m_id (init s) = None) ->
+  forall ls st st', Forall noext_label ls -> noext_inv init st -> grun ST st ls = Some st' -> noext_inv init st'.
+Proof.
+  intros Hinit. induction ls as [|l r IH]; intros st st' HF HI HR; simpl in HR.
+  - now inversion HR; subst.
+  - destruct (gstep ST st l) as [s1|] eqn:E; [|discriminate]. inversion HF; subst.
+    eapply IH; [eassumption| |eassumption]. eapply gstep_noext; eassumption.
+Qed.
+
+Lemma col_list_eq_dec (a b : list col) : {a = b} + {a <> b}.
+Proof. decide equality. decide equality; [decide equality|apply N.eq_dec]. Qed.
+
+(* C14_announced_in_quadrant *)
+Lemma announced_in_quadrant ST init ls st c a u pg nr cl :
+  (forall s, m_id (init s) = None) -> Forall noext_label ls ->
+  grun ST (ginit init) ls = Some st ->
+  let k := g_calls st c in
+  let s := xa_stmt a in
+  k_x k = Some a -> xa_use_cached a = true -> k_st k = CS_done (O_rows u pg nr cl) ->
+  (forall s', g_cells st s' = init s') /\
+  (exists b rest, k_rcvd k = RRows b :: rest /\
+     match rb_meta b with
+     | RM_full nid cols => u = meta_of_cols nid cols
+     | RM_none _ => m_cols u = m_cols (init s) \/ u = mock_empty
+     end) /\
+  (~ KnownClass ST st c (m_cols u) ->
+   forall c' id pm, In (RPrepared id pm) (k_rcvd (g_calls st c')) -> id = s_id (ST s) -> m_cols pm <> [] ->
+                    m_cols pm = m_cols u).
+Proof.
+  intros Hinit HF HR k s Hx Huc Hd.
+  assert (HI : noext_inv init st).
+  { eapply (grun_noext ST init Hinit ls); try eassumption. constructor; simpl; auto. intros c0 m0 HH; discriminate. }
+  destruct HI as [HC HA HE HS].
+  assert (GR : greach ST init st) by (exists ls; assumption).
+  destruct (decode_meta ST init st c a u pg nr cl GR Hx Hd) as [m [b [rs [rr [Hs [Hr [_ [_ [_ [Hm Hu]]]]]]]]]].
+  split; [exact HC|]. split.
+  - exists b, rr. split; [exact Hr|]. destruct (rb_meta b) as [n|nid cols]; [|exact Hu].
+    destruct (f_skip _); [|now right]. left. destruct Hu as [-> _].
+    destruct Hm as [->|HI]; [reflexivity|]. fold s in HI. rewrite HA in HI. destruct HI.
+  - intros NK c' id pm HI Hid Hne.
+    destruct (col_list_eq_dec (m_cols pm) (m_cols u)) as [E|N]; [exact E|].
+    exfalso. apply NK. exists a. split; [exact Hx|]. split; [apply HE|]. split; [exact Huc|].
+    exists c', id, pm. auto.
+Qed.
+
+(* ---- the concurrent-trace search builds runs too ---- *)
+Lemma pstep_run ST st p st' op' : pstep ST st p = Some (st', op') -> exists ls, grun ST st ls = Some st'.
+Proof.
+  unfold pstep. destruct (negb (pc_started p)).
+  - destruct (gstep ST st (GL_exec (pc_id p) (pc_ext p) (pc_args p))) as [s1|] eqn:E; [|discriminate].
+    intros H; inversion H; subst. exists [GL_exec (pc_id p) (pc_ext p) (pc_args p)]. cbn [grun]. now rewrite E.
+  - destruct (pc_xs p) as [|x r].
+    + destruct (k_st (g_calls st (pc_id p))); try discriminate.
+      destruct (obs_out_eqb _ _); [|discriminate]. intros H; inversion H; subst. exists []. reflexivity.
+    + destruct (negb (waiting _)); [discriminate|].
+      destruct (last_sent st (pc_id p)) as [q|]; [|discriminate].
+      destruct (request_eqb q (x_req x)); [|discriminate].
+      destruct (gstep ST st (GL_resp (pc_id p) (x_resp x))) as [s1|] eqn:E; [|discriminate].
+      intros H; inversion H; subst. destruct (g_tick_run ST s1 (pc_id p)) as [ls Hl].
+      exists (GL_resp (pc_id p) (x_resp x) :: ls). cbn [grun]. now rewrite E.
+Qed.
+
+Lemma g_par_sound ST : forall fuel st pre post st',
+  g_par fuel ST st pre post = Some st' -> exists ls, grun ST st ls = Some st'.
+Proof.
+  induction fuel as [|k IH]; intros st pre post st' H; simpl in H; [discriminate|].
+  destruct post as [|p rest].
+  - destruct pre; [|discriminate]. inversion H; subst. exists []. reflexivity.
+  - destruct (pstep ST st p) as [[s1 op']|] eqn:E; [|eapply IH; eassumption].
+    destruct (g_par k ST s1 [] _) as [r|] eqn:E2; [|eapply IH; eassumption].
+    inversion H; subst. destruct (pstep_run _ _ _ _ _ E) as [l1 H1]. destruct (IH _ _ _ _ E2) as [l2 H2].
+    exists (l1 ++ l2). rewrite grun_app, H1. exact H2.
 Qed.
